@@ -2509,6 +2509,8 @@ impl ParserState {
     // This is never inlined anyways, so better make it formal
     #[inline(never)]
     fn advance_parser(&mut self, pre_lexeme: PreLexeme) -> bool {
+        #[cfg(llguidance_verif)]
+        crate::verif_seam::sched_point("parser.advance_parser");
         if self.stats.all_items > self.max_all_items {
             return false;
         }
@@ -2803,15 +2805,21 @@ impl Parser {
     // must not include 'foo', even though the LLM generated 'foo'.
     // The bytes in 'foo' are therefore said to be "hidden".
     pub fn hidden_start(&self) -> usize {
+        #[cfg(llguidance_verif)]
+        crate::verif_seam::before_lock(&self.shared, "parser.hidden_start");
         let mut shared = self.shared.lock().unwrap();
         self.state.hidden_start(shared.lexer_mut())
     }
 
     pub fn lexer_stats(&self) -> LexerStats {
+        #[cfg(llguidance_verif)]
+        crate::verif_seam::before_lock(&self.shared, "parser.lexer_stats");
         self.shared.lock().unwrap().lexer().dfa.stats()
     }
 
     pub fn get_error(&self) -> Option<ParserError> {
+        #[cfg(llguidance_verif)]
+        crate::verif_seam::before_lock(&self.shared, "parser.get_error");
         let shared = self.shared.lock().unwrap();
         if let Some(e) = shared.lexer().dfa.get_error() {
             return Some(ParserError::LexerError(e));
@@ -2879,6 +2887,8 @@ impl Parser {
     }
 
     fn with_shared<T>(&mut self, f: impl FnOnce(&mut ParserState) -> T) -> T {
+        #[cfg(llguidance_verif)]
+        crate::verif_seam::before_lock(&self.shared, "parser.with_shared");
         let mut shared = self.shared.lock().unwrap();
         self.state.shared_box = std::mem::take(&mut *shared);
         let r = f(&mut self.state);
@@ -2949,6 +2959,8 @@ impl Parser {
 
     pub fn deep_clone(&self) -> Self {
         let mut copy = self.clone();
+        #[cfg(llguidance_verif)]
+        crate::verif_seam::before_lock(&self.shared, "parser.deep_clone");
         let shared = self.shared.lock().unwrap();
         copy.shared = Arc::new(Mutex::new(shared.clone()));
         copy
